@@ -174,7 +174,7 @@ def check_def_case(st, out):
     def bad(clause, detail, **kw):
         out['bad'].append(dict(why='%s: %s' % (clause, detail), case=dict(base, clause=clause, **kw)))
 
-    obs = L.run_iter(spec, srcd, kmax, horizon)
+    obs = L.run_iter(spec, srcd, kmax, horizon, bind_in_spec=not alt_sp)
     out['n'] += 1
     clause, detail, drift = judge_iter(pred, obs, kmax)
     if drift:
@@ -192,7 +192,7 @@ def check_def_case(st, out):
     for kind, i, t in terms:
         if not (t['det'] and t['demLA'] != INF):
             continue
-        r = L.run_terminal(terminal_spec(spec, kind, t), srcd, horizon)
+        r = L.run_terminal(terminal_spec(spec, kind, t), srcd, horizon, bind_in_spec=alt_sp)
         out['n'] += 1
         res = judge_terminal(kind, t, pred['xs'], r)
         if res:
@@ -383,12 +383,12 @@ def rand_stage(rng, depth):
         break
     nested = depth >= 1 or wild          # items are (mostly) lists / tuples: partial keys x[0], len(x) make sense
     if k == 'map':
-        f = rng.choice(['inc', 'skip_odd', 'dup', 'T', 'stop_at2', 'mod2', 'inc_tup', 'inc_spec']
+        f = rng.choice(['inc', 'skip_odd', 'dup', 'T', 'stop_at2', 'mod2', 'inc_tup', 'inc_spec', 'inc_S']
                        + (['item0_T', 'item0_str', 'item0', 'item0_spec', 'cnt0_T', 'cnt0'] if nested else []))
         d = depth + 1 if f == 'dup' else max(depth - 1, 0) if f.startswith('item0') else 0 if f.startswith('cnt0') else depth
         return S('map', f), d
     if k == 'filter':
-        return S('filter', rng.choice(['T', 'lt2', 'odd', 'lt2_check', 'lt2_spec', 'lt2_tup', 'even', 'notnone']
+        return S('filter', rng.choice(['T', 'lt2', 'odd', 'lt2_check', 'lt2_spec', 'lt2_tup', 'lt2_S', 'even', 'notnone']
                                       + (['item0_T', 'isempty', 'cnt0_T'] if nested else []))), depth
     if k == 'slice':
         start = rng.randint(0, 3)
@@ -397,7 +397,7 @@ def rand_stage(rng, depth):
     if k == 'limit':
         return S('slice', rng.choice(['limit', 'limit', 'slice1']), 0, rng.randint(0, 5), 1), depth
     if k in ('takewhile', 'dropwhile'):
-        return S(k, rng.choice(['T', 'lt2', 'odd', 'lt2_tup', 'lt2_spec', 'odd_spec', 'notnone']
+        return S(k, rng.choice(['T', 'lt2', 'odd', 'lt2_tup', 'lt2_spec', 'lt2_S', 'odd_spec', 'notnone']
                                + (['item0_T', 'item0_str', 'cnt0_T', 'item0'] if nested else []))), depth
     if k == 'chunked':
         fill = rng.choice(['no', None, 0])
@@ -411,13 +411,13 @@ def rand_stage(rng, depth):
             rng.choice(['odd', 'lt2', 'isempty', 'notnone']) if mode == 'fn' else rng.choice([None, 0, 1])
         return S('split', mode, 0, rng.choice([-1, -1, 1, 2, 3]), 0, sep), depth + 1
     if k == 'unique':
-        return S('unique', rng.choice(['T', 'mod2', 'mod2_tup'] + (['item0_spec', 'cnt0_T'] if nested else []))), depth
+        return S('unique', rng.choice(['T', 'mod2', 'mod2_tup', 'mod2_S'] + (['item0_spec', 'cnt0_T'] if nested else []))), depth
     return S('flatten'), max(depth - 1, 0)
 
 
 def rand_source(rng):
     r = rng.random()
-    atoms = [0, 1, 2, 3, 4, None, 1, 2]
+    atoms = [0, 1, 2, 3, 4, None, 1, 2] + ([L.WILD, L.NULL, 1] if rng.random() < 0.25 else [])
     if r < 0.2:
         return dict(kind='count', items=[]), 0
     if r < 0.35:
@@ -430,12 +430,12 @@ def rand_source(rng):
 
 
 # the (key, default) pairs of first() the specification predicts for every case (GlomStream!FirstVariants)
-FIRST_VARIANTS = [('T', None), ('notnone', 7), ('even', 9), ('isempty', 7), ('item0_T', 7)]
+FIRST_VARIANTS = [('T', None), ('notnone', 7), ('even', 9), ('isempty', 7), ('item0_T', 7), ('lt2_S', 7)]
 
 
 def rand_row(rng, horizon=24):
     srcd, depth = rand_source(rng)
-    sub = rng.choice(['T', 'T', 'T', 'inc', 'skip_odd', 'stop_at2', 'dup', 'inc_spec'] + (['item0_T', 'cnt0_T'] if depth else []))
+    sub = rng.choice(['T', 'T', 'T', 'inc', 'skip_odd', 'stop_at2', 'dup', 'inc_spec', 'inc_S'] + (['item0_T', 'cnt0_T'] if depth else []))
     given = rng.random() < 0.3
     sent = rng.choice([0, None, 2, 3]) if given else L.STOP
     pipe = [dict(kind='base', f=sub, a=0, b=1 if given else 0, c=0, v=V(sent))]
@@ -452,20 +452,22 @@ def record_rows(n, seed):
     while len(rows) < n:
         row = rand_row(rng)
         spec = L.build_iter(row['pipe'], alt_spelling=rng.random() < 0.5)
-        obs = L.run_iter(spec, row['srcd'], row['kmax'], row['horizon'], want_ev=True)
-        if obs['exc'] or not obs['pulled']:
-            dropped += 1        # ill-typed pipeline (TypeError) or undetermined already at glom()
+        bind = rng.random() < 0.5          # scope bound by S(..) earlier in the spec / passed with scope=
+        obs = L.run_iter(spec, row['srcd'], row['kmax'], row['horizon'], want_ev=True, bind_in_spec=bind)
+        if not obs['exc'] and not obs['pulled']:
+            dropped += 1        # undetermined already at glom() (budget)
             continue
-        obs['mech'] = not obs['budget']
-        del obs['exc']
+        # (a run that raised is recorded too: the specification accepts it only if the pipeline is ill-typed)
+        obs['mech'] = not obs['budget'] and not obs['exc']
+        obs['exc'] = bool(obs['exc'])
         row['obs'] = obs
         # one terminal call on the same pipeline: first(key, default) for one of the predicted pairs, or all()
         term = dict(kind='none', idx=0, v=V(None), pulled=0, budget=False)
         choice = rng.randint(0, len(FIRST_VARIANTS) + 1)
-        if choice >= 1:
+        if choice >= 1 and not obs['exc']:
             kind = 'first' if choice <= len(FIRST_VARIANTS) else 'all'
             t = dict(p=FIRST_VARIANTS[choice - 1][0], d=V(FIRST_VARIANTS[choice - 1][1])) if kind == 'first' else {}
-            r = L.run_terminal(terminal_spec(spec, kind, t), row['srcd'], row['horizon'])
+            r = L.run_terminal(terminal_spec(spec, kind, t), row['srcd'], row['horizon'], bind_in_spec=not bind)
             if not r['exc']:
                 v = V(None) if r['budget'] else V(r['v'])
                 term = dict(kind=kind, idx=choice if kind == 'first' else 0, v=v, pulled=r['pulled'], budget=r['budget'])
@@ -517,7 +519,7 @@ def corrupted_rows():
     import copy
     good = dict(pipe=[S('base', 'T', 0, 0, 0, L.STOP), S('map', 'inc')],
                 srcd=dict(kind='fin', items=[V(1), V(2), V(3)]), kmax=4, horizon=24,
-                obs=dict(outs=[V(2), V(3), V(4)], ended=True, pulled=[0, 1, 2, 3, 4], budget=False,
+                obs=dict(outs=[V(2), V(3), V(4)], ended=True, pulled=[0, 1, 2, 3, 4], budget=False, exc=False,
                          ev=['b', 'p', 'e', 'p', 'e', 'p', 'e', 'x', 'f'], mech=True),
                 term=dict(kind='all', idx=0, v=V([2, 3, 4]), pulled=4, budget=False))
     a = copy.deepcopy(good)
@@ -532,6 +534,8 @@ def spec_mutants(check):
             ('MC_C17_pull', dict(PullMutant='"tkey_called"', Wide='TRUE', MaxStages=1), 'pull:tkey_called (T-expression key called, not glommed)'),
             ('MC_C17_pull', dict(PullMutant='"check_passes"', Wide='TRUE', MaxStages=1), 'pull:check_passes (Check key of filter ignored)'),
             ('MC_C17_pull', dict(PullMutant='"sepfn_ignored"', Wide='TRUE', MaxStages=1), 'pull:sepfn_ignored (callable separator never separates)'),
+            ('MC_C17_pull', dict(PullMutant='"skey_unscoped"', Wide='TRUE', MaxStages=1), 'pull:skey_unscoped (a key reading S is not evaluated in the running scope)'),
+            ('MC_C17_pull', dict(PullMutant='"filter_ne"', Wide='TRUE', MaxStages=1), 'pull:filter_ne (filter lets the item\'s own != decide)'),
             ('MC_C17_pull', dict(PullMutant='"reverse"'), 'pull:reverse'),
             ('MC_C17_pull', dict(PullMutant='"takewhile_drain"'), 'pull:takewhile_drain'),
             ('MC_C17_build', dict(BuildMutant='"inplace"'), 'build:inplace'),
@@ -605,7 +609,7 @@ def main(tier, seed):
                             matcher=match_finding)
         check.validated(len(rows) - skipped - len(rejects))
         check.cov['evaluations'] += len(rows)
-        check.extra['recorded_rows'] = dict(rows=len(rows), dropped_python_exception=dropped, skipped_illtyped_by_spec=skipped,
+        check.extra['recorded_rows'] = dict(rows=len(rows), dropped_undetermined_at_glom=dropped, skipped_illtyped_by_spec=skipped,
                                             rejected=len(rejects))
         for row in rows[:1]:
             check.sample(dict(kind='recorded', **row), limit=8)
@@ -659,7 +663,7 @@ def main(tier, seed):
         spec_mutants(check)
     check.extra['constants'] = {k: v for k, v in cfgd.items() if isinstance(v, dict)}
     check.assumptions += [
-        'stage keys / subspecs come from a fixed function library (inc, skip_odd, stop_at2, dup, mod2, item0, len, lt2, odd, notnone, even, isempty, T), each in the spellings a glom spec can take (callable, T expression, path string, tuple, Spec, Check for filter); pipelines in which a key raises (x[0] / len(x) on a wrong item) are ill-typed and skipped, also under filter, where glom turns the error into SKIP',
+        'stage keys / subspecs come from a fixed function library (inc, skip_odd, stop_at2, dup, mod2, item0, cnt0, lt2, odd, notnone, even, isempty, T), each in the spellings a glom spec can take (callable, T expression, path string, tuple, Spec, Check for filter, Invoke(..).specs(T, S.var) reading the running scope); every real call runs under the scope {cut: 2, one: 1}, passed with scope= or bound by S(..) earlier in the same spec; keys resolved by the registered handlers of a Glommer instance are not modelled; items include two objects with hostile == / != (equal to everything; comparisons yield a falsy object), both unhashable; pipelines in which a key raises (x[0] / x.count(0) on a wrong item) are ill-typed and skipped, also under filter, where glom turns the error into SKIP',
         'ill-typed pipelines (flatten over a non-iterable, unique / set-separator split over an unhashable item anywhere inside the horizon) are outside the law and skipped; exceptions are not compared',
         'split(maxsplit=0) (boltons yields the iterator itself) and string items are outside the universe',
         'SKIP / STOP are control values: a pipeline in which the SKIP or STOP object itself travels as an ordinary stream item (produced by a .map function) is outside the contract and skipped like an ill-typed one; there glom differs from the plain composition: glom([1], Iter().map(lambda x: SKIP).first(lambda x: True)) returns the map iterator (a tuple step yielding SKIP is skipped), glom([1], Iter().map(lambda x: SKIP).filter(lambda x: True).all()) == [] (filter tests "result is not SKIP")',
@@ -698,7 +702,7 @@ def replay(path):
             print('machine:', case['machine'])
             return 0 if same else 1
         print('recorded:', case['obs'])
-        rej, _ = validate_trace(vlib.Check(PROP, 'quick', 0), [dict((k, case[k]) for k in ('pipe', 'srcd', 'kmax', 'horizon')) | {'obs': dict(obs, mech=not obs['budget'])}], 'replay', 1)
+        rej, _ = validate_trace(vlib.Check(PROP, 'quick', 0), [dict((k, case[k]) for k in ('pipe', 'srcd', 'kmax', 'horizon')) | {'obs': dict(obs, mech=not obs['budget'] and not obs['exc'], exc=bool(obs['exc'])), 'term': case.get('term', dict(kind='none', idx=0, v=V(None), pulled=0, budget=False))}], 'replay', 1)
         print('TLC verdict now:', [r[1] for r in rej] or 'accepted')
         return 1 if any(not r[1]['clause'].startswith('drift') for r in rej) else 0
     if kind == 'build':
